@@ -45,8 +45,13 @@ def plan(tier):
 
 
 def gen(rng, simname):
-    case = simcases.gen_case(rng, simname, buggify=False, zero_delays=False,
+    # a quarter of the cases DO allow events at exactly tmin (zero delays from the tables, zero
+    # exponentials from buggify): for those only row 0 of the arrays is judged, because an infection
+    # *at* tmin is a later event sharing the timestamp and get_statuses(tmin) rightly shows it
+    row0_only = rng.random() < 0.25
+    case = simcases.gen_case(rng, simname, buggify=row0_only, zero_delays=row0_only,
                              horizon=rng.choice(["default", "inf", "finite"]))
+    case["row0_only"] = row0_only
     from checks.c04 import tune
     case = tune(case, rng)
     cont = rng.choice(CONTAINERS)
@@ -177,6 +182,9 @@ def one_case(case):
         out.append(V("start_row", "%s/start-row" % name,
                      "initial set as %s, request I=%d R=%d of N=%d at tmin=%r; row 0 is t=%r %r"
                      % (cont, nI, nR, N, case["tmin"], t0, row0), case))
+        return out, info
+    if case.get("row0_only"):
+        info["row0_only"] = 1
         return out, info
     inv = rf.value
     try:
@@ -312,6 +320,8 @@ def run_one(family, rng, idx, tier):
         stats["rho_cases"] = 1
     if info.get("differential"):
         stats["differential_container_runs"] = 1
+    if info.get("row0_only"):
+        stats["cases_with_events_at_tmin_row0_only"] = 1
     if info.get("wrapper_diff"):
         stats["differential_wrapper_runs"] = 1
     if info["status"] != "done":
